@@ -49,6 +49,7 @@ typedef struct hnode
     int key;
     uint32_t id;
     uint32_t magic;
+    uint32_t shift; /* configuration "minalign": distance from the start of the malloc block */
 } hnode;
 
 /* The documented comparator contract is only the SIGN of the result (avl.h/rbt.h: ==0 equivalent, <0 before, >0 after), so
@@ -280,7 +281,18 @@ static void pset_del(hnode *h)
 }
 static hnode *node_new(int key)
 {
+#ifdef VF_MINALIGN
+    /* Configuration "minalign" (built with -fno-sanitize=alignment): every second node lives at an address that has exactly the
+       alignment the header documents as sufficient for the packed parent word ("It must be N-byte aligned": rbt.h 2, avl.h 4) and
+       no more, as on an ABI with that pointer alignment.  malloc blocks are 16-aligned, so without this the low four bits of
+       every node address are zero and a mask that takes more bits than documented is invisible (seeded change C02-I). */
+    static uint32_t nalloc;
+    uint32_t const shift = (++nalloc & 1) ? (uint32_t)(VF_MINALIGN) : 0;
+    hnode *h = (hnode *)((char *)malloc(sizeof(hnode) + (VF_MINALIGN)) + shift);
+#else
+    uint32_t const shift = 0;
     hnode *h = (hnode *)malloc(sizeof(hnode));
+#endif
     uint32_t id;
     static uint32_t hint;
     (void)hint;
@@ -297,6 +309,8 @@ static hnode *node_new(int key)
     h->key = key;
     h->id = id;
     h->magic = NODE_MAGIC;
+    h->shift = shift;
+    if (shift) { VF_COUNT("node-at-minimum-documented-alignment"); }
     live[id] = h;
     pset_add(h);
     return h;
@@ -306,7 +320,7 @@ static void node_free(hnode *h)
     live[h->id] = NULL;
     pset_del(h);
     h->magic = 0;
-    free(h);
+    free((char *)h - h->shift);
 }
 static void free_all_live(void)
 {
